@@ -17,7 +17,8 @@ PROPS = {
                  corpus="ccall", quick_n=2500, thorough_n=150000, nontrivial=nt_ccall,
                  rule="one CallConcurrently call per history: 0-5 entries incl. nil entries (also only nil entries), caller context cancelled "
                       "before / during the call or never, every function returns nil / context.Canceled / one of three errors in an "
-                      "implementation-driven random order against the caller's gates (entry AND exit gates of the caller's two sections, entry "
+                      "implementation-driven random order against the caller's gates; the caller's context is plain / ends like a deadline / is cancelled with a cause "
+                      "(config [k], harness/hctx; result codes distinguish context.Canceled, context.DeadlineExceeded, the cause, any other foreign error) (entry AND exit gates of the caller's two sections, entry "
                       "gate of every record section), both select cases ready in a share of the histories, function returns after the call "
                       "returned; + corpus (D12 window, single nil function, all-nil, inline path with cancelled context); distinct = distinct "
                       "event sequence; non-trivial = at least 6 events"),
